@@ -1,17 +1,55 @@
 //! One module per property. `spec(id)` returns the check description the engine runs.
+//! Every property has its module registered here already; a module that is not implemented
+//! yet is a stub whose `spec()` has no sub-checks (and is listed in `STUBS`).
 use crate::engine::PropSpec;
 
 pub mod c01;
+pub mod c02;
+pub mod c03;
+pub mod c04;
+pub mod c05;
 pub mod c06;
+pub mod c07;
+pub mod c08;
 pub mod c09;
+pub mod c10;
+pub mod c11;
+pub mod c12;
+pub mod c13;
+pub mod c14;
+pub mod c15;
+pub mod c16;
+pub mod c17;
+pub mod c18;
+pub mod c19;
+pub mod c20;
 
-pub const ALL: &[&str] = &["C01", "C06", "C09"];
+pub const ALL: &[&str] = &["C01", "C02", "C03", "C04", "C05", "C06", "C07", "C08", "C09", "C10", "C11", "C12", "C13", "C14", "C15", "C16", "C17", "C18", "C19", "C20"];
 
 pub fn spec(id: &str) -> Option<PropSpec> {
-    Some(match id {
+    let spec = match id {
         "C01" => c01::spec(),
+        "C02" => c02::spec(),
+        "C03" => c03::spec(),
+        "C04" => c04::spec(),
+        "C05" => c05::spec(),
         "C06" => c06::spec(),
+        "C07" => c07::spec(),
+        "C08" => c08::spec(),
         "C09" => c09::spec(),
+        "C10" => c10::spec(),
+        "C11" => c11::spec(),
+        "C12" => c12::spec(),
+        "C13" => c13::spec(),
+        "C14" => c14::spec(),
+        "C15" => c15::spec(),
+        "C16" => c16::spec(),
+        "C17" => c17::spec(),
+        "C18" => c18::spec(),
+        "C19" => c19::spec(),
+        "C20" => c20::spec(),
         _ => return None,
-    })
+    };
+    // a stub has no sub-checks
+    (!spec.subs.is_empty()).then_some(spec)
 }
